@@ -121,8 +121,8 @@ fn framewise(w: &Workload, src: &mut SimSource) -> Result<Stream, EncodeError> {
     }
     let (_, ctx) = fb_ctx;
     stream.stream_info_mut().set_md5_digest(&ctx.md5_digest());
-    let total = src.len_hint().unwrap_or_else(|| ctx.total_samples());
-    stream.stream_info_mut().set_total_samples(total);
+    // the assembler states what it consumed (a length hint is advisory)
+    stream.stream_info_mut().set_total_samples(ctx.total_samples());
     Ok(stream)
 }
 
